@@ -234,6 +234,8 @@ func (w *World) Run() {
 			w.execCompose(st)
 		case SCall:
 			w.execCall(st)
+		case SLongForm:
+			w.execLongForm(i, st)
 		case SEnum:
 			if st.Name == "tamper" {
 				w.execTamper(i, st)
